@@ -218,10 +218,11 @@ def make_policy(spec):
 # --------------------------------------------------------------------------
 class Scheduler:
     def __init__(self, policy, *, trace_lines=True, trace_prefixes=(),
-                 max_steps=3_000_000, record_sites=False):
+                 max_steps=3_000_000, record_sites=False, trace_opcodes=False):
         self.policy = policy
         self.trace_lines = trace_lines
         self.trace_prefixes = tuple(trace_prefixes)
+        self.trace_opcodes = trace_opcodes   # also pre-empt between the bytecodes of package frames
         self.max_steps = max_steps
         self.threads = []
         self.current = None
@@ -382,11 +383,13 @@ class Scheduler:
 
     def _global_trace(self, frame, event, arg):
         if event == "call" and self._traced(frame.f_code):
+            if self.trace_opcodes:
+                frame.f_trace_opcodes = True
             return self._local_trace
         return None
 
     def _local_trace(self, frame, event, arg):
-        if event == "line":
+        if event == "line" or event == "opcode":
             self.yield_point("line")
         return self._local_trace
 
